@@ -338,3 +338,31 @@ pub fn b2f(b: bool) -> f64 {
         0.0
     }
 }
+
+/// `BezPath::to_svg` exists only with kurbo's `std` feature. The libm build of the harness (C19's second
+/// build) gets a transcription of it here so that modules which print paths still compile; the writer itself
+/// is checked by C16 against the std build only.
+#[cfg(feature = "libm")]
+pub trait ToSvgCompat {
+    fn to_svg(&self) -> String;
+}
+#[cfg(feature = "libm")]
+impl ToSvgCompat for kurbo::BezPath {
+    fn to_svg(&self) -> String {
+        use kurbo::PathEl;
+        let mut s = String::new();
+        for (i, el) in self.elements().iter().enumerate() {
+            if i > 0 {
+                s.push(' ');
+            }
+            match *el {
+                PathEl::MoveTo(p) => s.push_str(&format!("M{},{}", p.x, p.y)),
+                PathEl::LineTo(p) => s.push_str(&format!("L{},{}", p.x, p.y)),
+                PathEl::QuadTo(p1, p2) => s.push_str(&format!("Q{},{} {},{}", p1.x, p1.y, p2.x, p2.y)),
+                PathEl::CurveTo(p1, p2, p3) => s.push_str(&format!("C{},{} {},{} {},{}", p1.x, p1.y, p2.x, p2.y, p3.x, p3.y)),
+                PathEl::ClosePath => s.push('Z'),
+            }
+        }
+        s
+    }
+}
